@@ -14,27 +14,69 @@ VIOLATES_FN = "violates"
 RULE = ("case = history of 3-12 transactions on a fresh chain, each delivered in its own block through "
         "BeginBlock/DeliverTx/EndBlock/Commit: regular Ethereum txs (1-3 MsgEthereumTx, nonce ok / gap / replay, gas "
         "below intrinsic, leftover gas (limits 30k-250k), gas prices in WEI that are mostly not whole unibi per gas "
-        "(legacy and dynamic-fee txs: odd prices, base fee + odd tip, odd caps, price below the base fee), several payers "
-        "in one tx, tampered signature, extra non-eth message, Cosmos signature attached); eth leaves "
+        "(legacy and dynamic-fee txs: odd prices, base fee + odd tip, odd caps, prices below the base fee down to 0), several payers "
+        "in one tx, tampered signature, extra non-eth message, Cosmos signature attached); about half of the Ethereum "
+        "messages are NOT plain transfers: contract creations (init code that stops / REVERTs / hits an invalid opcode / "
+        "deploys code), calls of contracts that stop / REVERT / abort / read storage, calldata, values from 0 to nearly the "
+        "whole balance, gas limits exactly at / just above / below what the execution needs and below the intrinsic gas, so "
+        "that executions end in every way: success, REVERT, abort, out of gas (in the code, at the code deposit), refused "
+        "for lack of funds for the value BEFORE the EVM touches the nonce (a poor sender whose gas prepayment at the base "
+        "fee eats what the value needs; an earlier message of the same tx and sender spending it), message failure after "
+        "admission; the very same signed transaction delivered again (at once and later); eth leaves "
         "whose unsigned From field names the tx signer / an exec grantee / the contract; Cosmos txs "
         "whose message trees (depth <= 5: authz MsgExec with self/grant authority, reflect.wasm Stargate dispatch, gov "
         "MsgSubmitProposal) carry a MsgEthereumTx, MsgGrant for the eth type, sends; Cosmos txs signed with an "
         "eth_secp256k1 key (probe of Hsig); bare MsgEthereumTx without extension option; unknown extension option; "
         "non-trivial = an Ethereum message sits under at least one wrapper, or a tx is signed with an eth key, or the "
-        "extension option does not fit the content, or an EVM tx has several messages; distinct = distinct input")
+        "extension option does not fit the content, or an EVM tx has several messages, or an EVM-route message is a "
+        "creation / contract call / carries a non-default value, or a signed tx is delivered twice; distinct = distinct input")
 ASSUMPTIONS = [
     "Hdisj: an address recovered from an Ethereum signature (keccak) never equals a secp256k1/multisig, module, contract or interchain-account address (world hypothesis of the theorems)",
     "Hsig: the Cosmos signature path never accepts an eth_secp256k1 key — tied to the generated fact SigGasConsumer = DefaultSigVerificationGasConsumer inside SigGasConsumeDecorator, and PROBED on every run (Cosmos txs signed with an eth key must be rejected)",
-    "every Ethereum leaf is a plain 1-unibi transfer to an account without code (gas used = 21000); the EVM interpreter is not modelled",
+    "the EVM interpreter is not modelled: an Ethereum message carries a descriptor (call / creation, intrinsic gas, gas the code needs, ends in stop / REVERT / abort); what depends on the chain state (can the sender pay the value, is the gas limit enough) is computed by the model; the harness drives ten fixed programs whose descriptors are written out in tools/props/c02.py (PROGS) and checked against the gas used / VM error reported by EventEthereumTx on every run",
     "the ICA host path is in the model (theorems cover it) but is not driven by the harness",
 ]
 TRUSTED = [
     "harness/gen/c17/antefacts (go/ast), shared with C17: decorator lists, extension-option switch arms, registered extension options, guard type tests, wasm handler checks, installed SigGasConsumer",
+    "harness/gen/c02/applynonce.go (go/ast): abstract interpretation of Keeper.ApplyEvmMsg (same-package helpers entered) for the sender-nonce writes around evm.Call / evm.Create",
 ]
 
 
 def _z(s):
     return "(%d)%%Z" % int(s)
+
+
+# what an Ethereum message asks of the EVM — mirrors `progs` in harness/c02/c02_test.go:
+# name -> (creation?, calldata / init code (hex), gas the code needs to reach its end, how it ends)
+PROGS = {
+    "": (False, "", 0, "XStop"),
+    "t-data": (False, "00ff00ff", 0, "XStop"),
+    "c-stop": (True, "00", 0, "XStop"),
+    "c-revert": (True, "60006000fd", 6, "XRevert"),
+    "c-invalid": (True, "fe", 0, "XInvalid"),
+    "c-deploy": (True, "6460006000fd6000526005601bf3", 1018, "XStop"),
+    "k-stop": (False, "", 0, "XStop"),
+    "k-revert": (False, "", 6, "XRevert"),
+    "k-invalid": (False, "", 0, "XInvalid"),
+    "k-sload": (False, "01", 2105, "XStop"),
+}
+
+
+def _intrinsic(create, data_hex):
+    bs = bytes.fromhex(data_hex)
+    return 21000 + (32000 if create else 0) + sum(4 if b == 0 else 16 for b in bs)
+
+
+def _xinfo(n):
+    create, data, ex, out = PROGS[n.get("prog", "")]
+    cap = n.get("cap") or n.get("price") or "1000000000000"
+    return "{| x_kind := %s; x_cap := %s; x_intr := %s; x_exec := %s; x_out := %s |}" % (
+        "XCreate" if create else "XCall", _z(cap), _z(_intrinsic(create, data)), _z(ex), out)
+
+
+def _val(n):
+    v = n.get("val")
+    return _z(v if v not in (None, "") else "1")
 
 
 KINDS = {"eth": "MKLeaf K_ETH", "send": "MKLeaf K_SEND", "grant": "MKLeaf K_GRANT", "exec": "MKExec", "wasm": "MKWasm", "gov": "MKGov"}
@@ -49,8 +91,8 @@ def _tree(n):
         else:
             price = "(eff_legacy %s)" % _z(n.get("price") or "1000000000000")
         if n.get("as") is not None:
-            return "Leaf (EthTxAs %d %d %d %s %s (1)%%Z)" % (n["as"], frm, n.get("nonce", 0), _z(n.get("gas", 0)), price)
-        return "Leaf (EthTx %d %d %s %s (1)%%Z)" % (frm, n.get("nonce", 0), _z(n.get("gas", 0)), price)
+            return "Leaf (EthTxAs %d %d %d %s %s %s %s)" % (n["as"], frm, n.get("nonce", 0), _z(n.get("gas", 0)), price, _val(n), _xinfo(n))
+        return "Leaf (EthTx %d %d %s %s %s %s)" % (frm, n.get("nonce", 0), _z(n.get("gas", 0)), price, _val(n), _xinfo(n))
     if k == "send":
         return "Leaf (Send %d)" % n.get("from", 0)
     if k == "grant":
@@ -77,8 +119,9 @@ def to_coq_case(rec):
             EXT[tx.get("ext", "")], signer, KEY[tx["key"]], "; ".join("(%s)" % _tree(m) for m in tx["msgs"]))
         es = "; ".join("{| eo_id := %d; eo_seq0 := %d; eo_dseq := %s; eo_dbal := %s |}" % (e["id"], e["seq0"], _z(e["dseq"]), _z(e["dbal"]))
                        for e in ob["eth"])
-        o = "{| o_ok := %s; o_fired := [%s]; o_eth := [%s]; o_dfee := %s |}" % (
-            "true" if ob["ok"] else "false", "; ".join(str(i) for i in ob["fired"]), es, _z(ob["dfee"]))
+        xs = "; ".join("(%s, %s)" % (_z(e["used"]), "true" if e["failed"] else "false") for e in ob.get("exec") or [])
+        o = "{| o_ok := %s; o_fired := [%s]; o_exec := [%s]; o_eth := [%s]; o_dfee := %s |}" % (
+            "true" if ob["ok"] else "false", "; ".join(str(i) for i in ob["fired"]), xs, es, _z(ob["dfee"]))
         items.append("(%s, %s)" % (t, o))
     return "[%s]" % ";\n     ".join(items)
 
@@ -98,6 +141,9 @@ def _eths(tx):
 
 
 def nontrivial(rec):
+    evs = [json.dumps(tx, sort_keys=True) for tx in rec["input"]["txs"] if tx.get("ext") == "evm"]
+    if len(set(evs)) < len(evs):
+        return True
     for tx in rec["input"]["txs"]:
         es = _eths(tx)
         if any(d >= 1 for _, d, _ in es):
@@ -110,6 +156,8 @@ def nontrivial(rec):
             return True
         if ext == "evm" and len(tx["msgs"]) > 1:
             return True
+        if ext == "evm" and any(d == 0 and (n.get("prog") or n.get("val") not in (None, "", "1")) for n, d, _ in es):
+            return True
         for n, d, ws in es:
             pr = int(n.get("cap") or n.get("price") or 10**12)
             if pr % 10**12 != 0 and n.get("gas", 0) > 21000:
@@ -117,9 +165,35 @@ def nontrivial(rec):
     return False
 
 
+def _exec_class(n, e):
+    """how one fired Ethereum message ended, from the input descriptor and the reported gas / VM error"""
+    create, data, ex, out = PROGS[n.get("prog", "")]
+    intr = _intrinsic(create, data)
+    kind = "create" if create else ("call" if n.get("prog", "").startswith("k-") else "transfer")
+    if not e["failed"]:
+        return "exec:%s ok" % kind
+    if e["used"] == n.get("gas"):
+        return "exec:%s all-gas-consumed (%s)" % (kind, "abort" if out == "XInvalid" and n.get("gas") - intr >= ex else "out-of-gas")
+    if e["used"] == intr:
+        return "exec:%s refused-before-evm (insufficient balance for value)" % kind
+    return "exec:%s reverted" % kind
+
+
 def classify(rec):
     ks = ["txs=%d" % len(rec["input"]["txs"])]
+    seen = set()
     for tx, ob in zip(rec["input"]["txs"], rec["obs"]):
+        if tx.get("ext") == "evm":
+            key = json.dumps(tx, sort_keys=True)
+            if key in seen:
+                ks.append("evm tx delivered again: %s" % ("accepted" if ob["ok"] else "rejected"))
+            seen.add(key)
+            es0 = [n for n, d, _ in _eths(tx) if d == 0]
+            if ob["ok"] and len(ob.get("exec") or []) == len(es0):
+                for n, e in zip(es0, ob["exec"]):
+                    ks.append(_exec_class(n, e))
+            if not ob["ok"] and any(e["dseq"] != 0 for e in ob["eth"]):
+                ks.append("evm tx admitted, messages failed (nonce consumed, prepayment kept)")
         ks.append("tx:ext=%s key=%s %s" % (tx.get("ext", "") or "none", tx["key"], "accepted" if ob["ok"] else "rejected"))
         for n, d, ws in _eths(tx):
             ks.append("eth-leaf depth=%d%s" % (min(d, 6), " under " + "/".join(ws[:3]) if ws else ""))
@@ -150,6 +224,22 @@ def signature(rec):
             return {"kind": "nonce-rewound"}
         if any(int(e["dbal"]) > 0 for e in ob["eth"]) or int(ob["dfee"]) < 0:
             return {"kind": "unpaid-refund"}
+    seen = set()
+    for tx, ob in zip(rec["input"]["txs"], rec["obs"]):
+        if tx.get("ext") != "evm":
+            continue
+        es0 = [n for n, d, _ in _eths(tx) if d == 0]
+        if ob["ok"] or any(e["dseq"] != 0 or int(e["dbal"]) != 0 for e in ob["eth"]):
+            want = {}
+            for n in es0:
+                want[n.get("from")] = want.get(n.get("from"), 0) + 1
+            if any(e["dseq"] != want.get(e["id"], 0) for e in ob["eth"]):
+                return {"kind": "admitted-nonce-not-consumed-once"}
+            for n in es0:
+                k = (n.get("from"), n.get("nonce", 0))
+                if k in seen:
+                    return {"kind": "same-nonce-admitted-twice"}
+                seen.add(k)
     return {"kind": "evm-admission-accounting"}
 
 
@@ -192,6 +282,10 @@ def _eth_as(claimed, frm, nonce, gas=50000):
     return {"k": "eth", "from": frm, "nonce": nonce, "gas": gas, "as": claimed}
 
 
+def _ethx(frm, nonce, gas, val, prog):
+    return {"k": "eth", "from": frm, "nonce": nonce, "gas": gas, "val": val, "prog": prog, "price": "0"}
+
+
 def _ex(g, *c):
     return {"k": "exec", "g": g, "c": list(c)}
 
@@ -232,6 +326,12 @@ SWEEP_INPUTS = [
     {"txs": [_evm(_eth(20, 0)), _cos(0, _wa(_ex(10, _eth_as(10, 20, 0))))]},
     {"txs": [_evm(_eth(20, 0)), _cos(1, _ex(1, _eth_as(1, 20, 0)))]},
     {"txs": [_evm(_eth(20, 0)), _cos(1, _eth_as(1, 20, 0))]},
+    {"txs": [_evm(_ethx(23, 0, 100000, "350000", "c-stop"))] * 2},
+    {"txs": [_evm(_ethx(23, 0, 100000, "350000", "k-stop"))] * 2},
+    {"txs": [_evm(_ethx(20, 0, 100000, "7", "c-revert"))] * 2},
+    {"txs": [_evm(_ethx(20, 0, 60000, "0", "c-invalid"))] * 2},
+    {"txs": [_evm(_ethx(21, 0, 21000, "600000000000000", ""), _ethx(21, 1, 80000, "600000000000000", "c-stop")),
+             _evm(_ethx(21, 1, 80000, "600000000000000", "c-stop"))]},
 ]
 
 
@@ -266,12 +366,18 @@ MANIFEST = {
                  "C02_eth_handler_only_behind_evm_ante and its history form — for EVERY transaction and history, message trees "
                  "of any depth/shape, any grants and signers, an Ethereum message whose handler ran was a DIRECT message of a tx "
                  "with the EVM extension option that the EVM ante chain admitted (nonce = sequence and consumed, gas x price "
-                 "prepaid); corollaries C02_nonce_never_rewound and C02_refund_covered_by_prepayment; "
+                 "prepaid); C02_admitted_nonce_consumed_exactly_once (on the committed state every sender's sequence advanced by "
+                 "exactly the number of its admitted messages, whatever the EVM execution did: creation or call, success, "
+                 "REVERT, abort, out of gas, refused for lack of funds before the EVM touched the nonce, message failure) and "
+                 "C02_admitted_nonce_never_admitted_again (the same signed bytes are turned away for ever); "
+                 "corollaries C02_nonce_never_rewound and C02_refund_covered_by_prepayment; "
                  "C02_no_wrapper_reaches_the_eth_handler is the structural induction over message trees with the invariant "
                  "'no grant has an Ethereum-derived granter'. The ante chains, extension-option arms, registered extension "
-                 "options, guard type tests, wasm handler checks, installed SigGasConsumer and GetSigners shape are re-extracted "
+                 "options, guard type tests, wasm handler checks, installed SigGasConsumer, GetSigners shape and what ApplyEvmMsg writes into the sender "
+                 "nonce after evm.Call / evm.Create are re-extracted "
                  "from /repo on every run and C02_holds_for_current_tree is re-checked. The model is run against real DeliverTx "
-                 "traces (accepted?, which leaves fired EventEthereumTx, per-account nonce/balance deltas, fee-collector delta) "
+                 "traces (accepted?, which leaves fired EventEthereumTx with which gas used / VM error, per-account nonce/balance "
+                 "deltas on the committed state, fee-collector delta, the same signed tx delivered again) "
                  "and the proved-sound Pb is evaluated on them. Each needed fact has a refutation theorem."),
         "design_ref": "DESIGN.md §5 C02",
     },
@@ -280,7 +386,8 @@ MANIFEST = {
                    "tx_wf); Hsig — the Cosmos signature path rejects eth_secp256k1 keys (cfg flag tied to the generated fact "
                    "SigGasConsumer = DefaultSigVerificationGasConsumer, and probed on every run by ~200 Cosmos txs signed with an "
                    "eth key). The two Nibiru guards are defence in depth and not used by the proof (their presence is a separate "
-                   "obligation). Ethereum leaves are plain transfers (gas used 21000): the interpreter is not modelled; the two "
+                   "obligation). The EVM interpreter is not modelled: Ethereum messages carry a descriptor of what the code does "
+                   "(call / creation, intrinsic gas, gas needed, stop / REVERT / abort) — ten fixed programs are driven; the two "
                    "per-decorator loops of the EVM chain are folded into one pass per message; ICA is covered by the theorems but "
                    "not driven. Trusted: Coq kernel + vm_compute; the go/ast extractor (shared with C17); the Go driver and "
                    "tools/props/c02.py; SDK/wasmd dispatch rules as modelled (pinned by the correspondence)."),
